@@ -31,3 +31,7 @@ package web
 // wrapper; every other request handler of Handler must be wrapped in Authn
 // where it is registered (cmd/shovel).
 //@ public Handler Index,Diag,Prom,Login props=C19
+
+// C19: a generated password is a per-process secret: the random bytes are
+// read before they are encoded into the password (never a constant).
+//@ before New rand.Read hex.Encode props=C19
